@@ -95,6 +95,8 @@ type c20env struct {
 	reads         int
 	readsAtCancel int
 	cancelled     bool
+	emptyAt       []int
+	emptySeen     int
 }
 
 func (e *c20env) ReadPacketData() ([]byte, *gopacket.CaptureInfo, error) {
@@ -118,6 +120,12 @@ func (e *c20env) ReadPacketData() ([]byte, *gopacket.CaptureInfo, error) {
 			data = []byte{sym, byte(i >> 8), byte(i)}
 			return
 		}
+		if sym == 'Z' {
+			// a read that succeeds with no bytes (a zero-length capture): still a frame that was read
+			data = []byte{}
+			e.emptyAt = append(e.emptyAt, i)
+			return
+		}
 		err = c20err(sym, i)
 	})
 	if err != nil {
@@ -127,6 +135,16 @@ func (e *c20env) ReadPacketData() ([]byte, *gopacket.CaptureInfo, error) {
 }
 
 func (e *c20env) ProcessPacketData(data []byte, _ *gopacket.CaptureInfo) error {
+	if len(data) == 0 {
+		// which empty frame this is: they are handed over in order
+		i := -1
+		if e.emptySeen < len(e.emptyAt) {
+			i = e.emptyAt[e.emptySeen]
+		}
+		e.emptySeen++
+		e.processed = append(e.processed, fmt.Sprintf("Z%d", i))
+		return nil
+	}
 	pos := int(data[1])<<8 | int(data[2])
 	e.processed = append(e.processed, fmt.Sprintf("%c%d", data[0], pos))
 	switch data[0] {
@@ -147,6 +165,8 @@ func c20model(script string) (processed, errs []string, terminated bool, sleeps 
 		switch {
 		case sym == 'F':
 			processed = append(processed, fmt.Sprintf("F%d", i))
+		case sym == 'Z':
+			processed = append(processed, fmt.Sprintf("Z%d", i))
 		case sym == 'P':
 			processed = append(processed, fmt.Sprintf("P%d", i))
 			errs = append(errs, fmt.Sprintf("process-%d", i))
@@ -317,7 +337,7 @@ func c20run(script string, consumerStopsOnCancel bool, withCancel bool) (cfg fun
 		// frame is processed exactly once" has no exception for a frame read while the scan is ending
 		var readFrames []string
 		for i := 0; i < e.pos; i++ {
-			if strings.IndexByte("FPpq", script[i]) >= 0 {
+			if strings.IndexByte("FPpqZ", script[i]) >= 0 {
 				readFrames = append(readFrames, fmt.Sprintf("%c%d", script[i], i))
 			}
 		}
@@ -336,10 +356,10 @@ func init() { drv.Register("c20", verifC20) }
 
 func verifC20(c *drv.Ctx) {
 	alpha, maxLen, maxLenD1 := "FPATtRUEBC", 5, 3
-	ext, extLen := "FPpqATtwaRUVHIMEBC", 4
+	ext, extLen := "FPpqZATtwaRUVHIMEBC", 4
 	if c.Thorough() {
 		alpha, maxLen, maxLenD1 = "FPATtRUEBCXYar", 5, 4
-		ext, extLen = "FPpqATtwarRUVHIMEBCXY", 4
+		ext, extLen = "FPpqZATtwarRUVHIMEBCXY", 4
 	}
 	c.R.Rule = fmt.Sprintf("every reachable read-outcome script of length <= %d over %q and of length <= %d over the extended alphabet %q (terminal symbols only last; p, q = frames whose processing fails with io.ErrUnexpectedEOF / EAGAIN, w = EWOULDBLOCK wrapped with %%w, a = EAGAIN in an os.SyscallError) x {consumer drains to close, consumer stops on cancel}; "+
 		"each run through the real ReceivePackets under the scheduler, reads being scheduling points: deviation bound 0 with the cancel event injected at every choice point for all scripts, bound 1 for scripts of length <= %d; "+
